@@ -87,7 +87,7 @@ Record Inv (s : state) : Prop := mkInv {
   iN : forall h, n s <= h -> pc s h = NotCreated /\ mux (th s h) = None;
   iM : stt s 0 = OK /\ cal s 0 = None /\ 0 < n s;
   iA : forall g h, active (pc s g) = true -> active (pc s h) = true -> g = h;
-  iB : exists g, active (pc s g) = true;
+  iB : exists g, active (pc s g) = true \/ pc s g = Panicked;
   iG : forall u h, mux (th s u) = Some h <-> holds (pc s h) h u = true;
   iD : forall h, h <> 0 -> h < n s -> stt s h = OK -> linked s h;
   iP : forall h, ok_pc s h (pc s h) }.
@@ -103,7 +103,7 @@ Proof.
   - intros h Hh. rewrite upd_neq by lia. auto.
   - auto.
   - intros g h. unfold upd. destruct (Nat.eqb_spec g 0), (Nat.eqb_spec h 0); simpl; congruence.
-  - exists 0. reflexivity.
+  - exists 0. left. reflexivity.
   - intros u h. unfold upd. destruct (Nat.eqb_spec h 0); simpl; split; discriminate.
   - intros h H1 H2. lia.
   - intros h. unfold upd. destruct (Nat.eqb_spec h 0); simpl; unfold stt, clo; simpl; auto. lia.
